@@ -227,8 +227,11 @@ def oracles(ctx, table, events, obs, backend="memory"):
         codes = ob["codes"]
         if v in ("stor", "appe", "dele", "rnfr", "rnto", "mkd", "rmd"):
             pristine = False
-        if v in ("cwd", "cdup", "user"):
+        if v in ("cwd", "cdup"):
             cwd_known = None
+        elif v == "user":
+            homes = [u.get("home", "/") for u in USERS[table] if u["login"] == arg]
+            cwd_known = homes[0] if homes else None
         if v == "retr" and pristine and cwd_known == "/" and ob["bytes"] is not None and "226" in codes and "/" not in arg.strip("/") and ".." not in arg:
             content = TREE.get(arg.strip("/"))
             if isinstance(content, bytes) and ob["bytes"] != content[armed:]:
